@@ -35,6 +35,10 @@ def job(h, pkg=K, **params):
     return j
 
 
+def lemmas():
+    return [job("ZZ_Lemma_SafemathAdd"), job("ZZ_Lemma_SafemathMul")]
+
+
 # ---------------------------------------------------------------- C16
 def c16_jobs(tier):
     js = []
@@ -51,7 +55,7 @@ def c16_jobs(tier):
     for c in windows:
         js.append(job("ZZ_C16_DateAccept", n=10, century=c, _split=65536))
         js.append(job("ZZ_C16_DateRoundtrip", century=c, _split=65536))
-    return js
+    return js + lemmas()
 
 
 # ---------------------------------------------------------------- C06
@@ -72,7 +76,7 @@ def c06_jobs(tier):
         js.append(job("ZZ_C06_Digits", U, n=20, shape=2))
     js.append(job("ZZ_C06_Digits", U, n=4, shape=4))
     js.append(job("ZZ_C06_EvalTotal", U))
-    return js
+    return js + lemmas()
 
 
 # ---------------------------------------------------------------- C08
@@ -92,7 +96,7 @@ def c02_jobs(tier):
     shapes = [(1, 1), (1, 2), (2, 1)] if tier == "quick" else [(1, 1), (1, 2), (2, 1), (1, 3), (3, 1), (2, 2)]
     for nrec, nent in shapes:
         js.append(job("ZZ_C02_Eval", S, nrec=nrec, nent=nent))
-    return js
+    return js + lemmas()
 
 
 CHECKS = {
